@@ -467,48 +467,64 @@ class Context:
 
         def define_property(*args):
             """Object.defineProperty(obj, prop, descriptor)."""
-            if len(args) < 3:
-                return UNDEFINED
-            obj, prop, descriptor = args[0], args[1], args[2]
+            obj, prop, descriptor = (list(args) + [UNDEFINED] * 3)[:3]
+            from .errors import JSTypeError
+
             if not isinstance(obj, JSObject):
-                return obj
+                if self._is_callable(obj):
+                    return obj  # functions carry no properties of their own
+                raise JSTypeError("Object.defineProperty called on non-object")
             prop_name = to_string(prop)
-
-            if isinstance(descriptor, JSObject):
-                existed = (
-                    obj.has(prop_name)
-                    or prop_name in obj._getters
-                    or prop_name in obj._setters
+            if not isinstance(descriptor, JSObject):
+                raise JSTypeError(
+                    f"Property description must be an object: {to_string(descriptor)}"
                 )
-                # Check for getter/setter
-                getter = descriptor.get("get")
-                setter = descriptor.get("set")
 
-                if getter is not UNDEFINED and getter is not NULL:
-                    obj.define_getter(prop_name, getter)
-                if setter is not UNDEFINED and setter is not NULL:
-                    obj.define_setter(prop_name, setter)
+            def present(name):
+                return descriptor.has(name) or name in descriptor._getters
 
-                # A property is either a data or an accessor property: defining one
-                # kind replaces an existing property of the other kind
-                if getter is UNDEFINED and setter is UNDEFINED:
-                    value = descriptor.get("value")
-                    if value is not UNDEFINED or not existed:
-                        obj._getters.pop(prop_name, None)
-                        obj._setters.pop(prop_name, None)
-                        obj.set(prop_name, value)
+            existed = (
+                obj.has(prop_name)
+                or prop_name in obj._getters
+                or prop_name in obj._setters
+            )
+            getter = read(descriptor, "get") if present("get") else UNDEFINED
+            setter = read(descriptor, "set") if present("set") else UNDEFINED
+            for accessor, what in ((getter, "Getter"), (setter, "Setter")):
+                if accessor is not UNDEFINED and not self._is_callable(accessor):
+                    raise JSTypeError(f"{what} must be a function: {to_string(accessor)}")
+            if (present("get") or present("set")) and (
+                present("value") or present("writable")
+            ):
+                raise JSTypeError(
+                    "Invalid property descriptor. Cannot both specify accessors "
+                    "and a value or writable attribute"
+                )
+
+            if getter is not UNDEFINED:
+                obj.define_getter(prop_name, getter)
+            if setter is not UNDEFINED:
+                obj.define_setter(prop_name, setter)
+
+            # A property is either a data or an accessor property: defining one
+            # kind replaces an existing property of the other kind
+            if getter is UNDEFINED and setter is UNDEFINED:
+                if present("value") or not existed:
+                    obj._getters.pop(prop_name, None)
+                    obj._setters.pop(prop_name, None)
+                    obj.set(prop_name, read(descriptor, "value"))
+            else:
+                obj._properties.pop(prop_name, None)
+
+            # enumerable: as given; a property created here without it is not
+            enumerable = read(descriptor, "enumerable")
+            if enumerable is not UNDEFINED:
+                if to_boolean(enumerable):
+                    obj.unhide(prop_name)
                 else:
-                    obj._properties.pop(prop_name, None)
-
-                # enumerable: as given; a property created here without it is not
-                enumerable = descriptor.get("enumerable")
-                if enumerable is not UNDEFINED:
-                    if to_boolean(enumerable):
-                        obj.unhide(prop_name)
-                    else:
-                        obj.hide(prop_name)
-                elif not existed:
                     obj.hide(prop_name)
+            elif not existed:
+                obj.hide(prop_name)
 
             return obj
 
